@@ -13,6 +13,7 @@ functions are called again with the same function object, judged against the ora
 """
 from __future__ import annotations
 
+import functools
 import math
 from fractions import Fraction
 
@@ -30,7 +31,11 @@ META = {
         "dense (complete minus a few pairs), shells (clique core + nodes hung onto 0-3 earlier nodes: nested cores) and "
         "forest+chords; every edge is listed from both sides, from one side only, or mixed; optional "
         "duplicate listings and self loops; neighbour lists, node order and index->label assignment are shuffled; labels all "
-        "ints, all strs or all tuples; neighbour function returns the stored list/a tuple/a generator; `nodes` is passed as "
+        "ints, all strs, all tuples, signed ints from -2 (hash(-1)==hash(-2)), tuples (-1,c)/(-2,c) (colliding hashes) or "
+        "instances of an orderable class with a constant __hash__; the neighbour function returns the stored container itself "
+        "(list/tuple/set/frozenset) or a fresh generator, and in `shared` mode (50%) nodes with equal neighbourhoods hold the "
+        "identical container object (twins / 'everybody lists everybody' groups are generated for that); every call is judged "
+        "against the graph as the containers describe it at call time (a container changed by solvOR is a label); `nodes` is passed as "
         "list/tuple/dict-keys/set/generator/iter/range-or-map (fresh per call); ~30% of the cases continue with 1-2 in-place "
         "edits of the live graph (add edge both/one-sided, remove edge) and repeat the calls with the same neighbour-function "
         "object, judged against the edited graph (bucket *:stale-after-graph-edit when the old answer is repeated). "
@@ -50,13 +55,45 @@ META = {
 }
 
 
+@functools.total_ordering
+class Key:
+    """A user-defined orderable node type whose instances all hash alike (legal: equal objects must hash
+    equally, nothing more).  Set/dict code still works through __eq__; code that orders by hash does not."""
+
+    __slots__ = ("v",)
+
+    def __init__(self, v):
+        self.v = v
+
+    def __eq__(self, o):
+        return isinstance(o, Key) and self.v == o.v
+
+    def __lt__(self, o):
+        return self.v < o.v
+
+    def __hash__(self):
+        return 7
+
+    def __repr__(self):
+        return f"Key({self.v})"
+
+
 def lab(scheme, i):
-    """All labels of one graph are mutually comparable (louvain and bridges() compare nodes)."""
+    """All labels of one graph are mutually comparable (louvain and bridges() compare nodes).
+
+    0 ints, 1 strs, 2 tuples, 3 signed ints starting at -2 (CPython: hash(-1) == hash(-2)), 4 tuples
+    (-1,c)/(-2,c) (pairwise hash collisions), 5 Key objects (every hash equal)."""
     if scheme == 0:
         return i
     if scheme == 1:
         return f"n{i}"
-    return (i // 3, i % 3)
+    if scheme == 2:
+        return (i // 3, i % 3)
+    if scheme == 3:
+        return i - 2
+    if scheme == 4:
+        return (-1 - i % 2, i // 2)
+    return Key(i)
 
 
 # ----------------------------------------------------------------------------- generators
@@ -150,14 +187,18 @@ def und_graphs(draw, tier="quick", salt=0):
         if side != 1:
             adj[v] += [u] * max(1, k - 1)  # both-sided duplicates may differ in count per side
     adj = [list(draw(st.permutations(a))) if len(a) > 1 else a for a in adj]
+    shared = draw(st.booleans())
+    if shared or draw(st.integers(0, 3)) == 0:
+        adj = draw_twins(draw, adj)
     return {
         "n": n,
-        "scheme": draw(st.integers(0, 2)),
+        "scheme": draw(st.integers(0, 5)),
+        "shared": shared,
         "family": family,
         "listing": listing,
         "order": list(draw(st.permutations(range(n)))) if n else [],
         "adj": adj,
-        "container": draw(st.integers(0, 2)),
+        "container": draw(st.integers(0, 4)),
         "nodes_kind": draw(st.integers(0, 6)),
         "edits": draw_edits(draw, adj, directed=False),
         "k": draw(st.integers(0, 5)),
@@ -196,13 +237,17 @@ def digraphs(draw, tier="quick"):
         adj[perm[u]].append(perm[v])
     adj = [list(draw(st.permutations(a))) if len(a) > 1 else a for a in adj]
     damping = draw(st.one_of(st.integers(5, 95).map(lambda k: k / 100), st.sampled_from([0.05, 0.5, 0.85, 0.95]), st.floats(0.05, 0.95)))
+    shared = draw(st.booleans())
+    if shared and draw(st.booleans()):
+        adj = draw_twins(draw, adj)
     return {
         "n": n,
-        "scheme": draw(st.integers(0, 2)),
+        "scheme": draw(st.integers(0, 5)),
+        "shared": shared,
         "family": family,
         "order": list(draw(st.permutations(range(n)))) if n else [],
         "adj": adj,
-        "container": draw(st.integers(0, 2)),
+        "container": draw(st.integers(0, 4)),
         "nodes_kind": draw(st.integers(0, 6)),
         "edits": draw_edits(draw, adj, directed=True),
         "api": draw(st.sampled_from(["callback", "callback", "edges"])),
@@ -214,6 +259,7 @@ def digraphs(draw, tier="quick"):
 
 # ----------------------------------------------------------------------------- building live inputs
 NODE_KINDS = ["list", "tuple", "dict-keys", "set", "generator", "iter", "range-or-map"]
+CONTAINERS = ["list", "tuple", "generator", "set", "frozenset"]
 
 
 def apply_edit(adj, e):
@@ -239,6 +285,25 @@ def apply_edit(adj, e):
         adj[u] = [x for x in adj[u] if x != v]
 
 
+def draw_twins(draw, adj):
+    """Make some neighbourhoods literally equal (twins: b lists exactly what a lists; or a group S in which
+    everybody lists all of S, itself included) — what the 'shared container' mode needs to bite."""
+    n = len(adj)
+    if n < 2:
+        return adj
+    adj = [list(a) for a in adj]
+    mode = draw(st.sampled_from(["none", "clone", "clone", "everyone"]))
+    if mode == "clone":
+        for _ in range(draw(st.integers(1, 2))):
+            a, b = draw(st.integers(0, n - 1)), draw(st.integers(0, n - 1))
+            adj[b] = list(adj[a])
+    elif mode == "everyone":
+        S = sorted(set(draw(st.lists(st.integers(0, n - 1), min_size=2, max_size=min(n, 5)))))
+        for v in S:
+            adj[v] = list(S)
+    return adj
+
+
 def draw_edits(draw, adj, directed):
     """0-2 edits (half of the cases none); removals aim at a pair that is currently listed."""
     n = len(adj)
@@ -259,28 +324,60 @@ def draw_edits(draw, adj, directed):
 
 
 class Live:
-    """A long-lived graph: ONE mutable dict of neighbour lists, ONE neighbour function object over it
-    (the way users hold a graph), a fresh `nodes` iterable of the generated kind for every call."""
+    """A long-lived graph: ONE mutable dict `store` of neighbour containers (list / tuple / set / frozenset,
+    or a list read through a fresh generator), ONE neighbour function object returning the stored container
+    itself (the way users write `lambda v: graph[v]`), a fresh `nodes` iterable of the generated kind for every
+    call.  In `shared` mode nodes with equal neighbourhoods hold the *identical* container object."""
 
     def __init__(self, desc):
         n, sch = desc["n"], desc["scheme"]
         self.n, self.scheme = n, sch
         self.L = L = [lab(sch, i) for i in range(n)]
         self.idx = {L[i]: i for i in range(n)}
-        self.adj = [list(a) for a in desc["adj"]]
-        self.table = table = {L[i]: [L[j] for j in self.adj[i]] for i in range(n)}
         self.base = [L[i] for i in desc["order"]]
         self.kind = NODE_KINDS[desc.get("nodes_kind", 0) % len(NODE_KINDS)]
-        kind = desc.get("container", 0)
+        self.ckind = CONTAINERS[desc.get("container", 0) % len(CONTAINERS)]
+        self.shared = bool(desc.get("shared", False))
+        self.store = store = {}
+        self._fill([list(a) for a in desc["adj"]], fresh=True)
+        gen = self.ckind == "generator"
 
         def neighbors(v):
-            if kind == 0:
-                return table[v]  # the stored list itself, as in `lambda v: graph[v]`
-            if kind == 1:
-                return tuple(table[v])
-            return (w for w in table[v])
+            c = store[v]
+            return (w for w in c) if gen else c
 
         self.neighbors = neighbors
+
+    def _fill(self, adj, fresh):
+        L, ck = self.L, self.ckind
+        as_set = ck in ("set", "frozenset")
+        made = {}
+        for i, a in enumerate(adj):
+            labs = [L[j] for j in a]
+            key = frozenset(a) if as_set else tuple(a)
+            if self.shared and key in made:
+                self.store[L[i]] = made[key]
+                continue
+            old = self.store.get(L[i])
+            if not fresh and not self.shared and ck in ("list", "generator"):
+                old[:] = labs  # unshared mutable containers are edited in place
+                c = old
+            elif not fresh and not self.shared and ck == "set":
+                old.clear()
+                old.update(labs)
+                c = old
+            else:
+                c = {"list": list, "generator": list, "tuple": tuple, "set": set, "frozenset": frozenset}[ck](labs)
+            self.store[L[i]] = made[key] = c
+
+    def snapshot(self):
+        """The graph as the containers describe it right now (index lists; sorted for set kinds)."""
+        idx, as_set = self.idx, self.ckind in ("set", "frozenset")
+        out = []
+        for i in range(self.n):
+            a = [idx[w] for w in self.store[self.L[i]]]
+            out.append(sorted(a) if as_set else a)
+        return out
 
     def nodes(self):
         """`nodes: Iterable[S]` — every documented kind, one-shot iterables included; new object per call."""
@@ -300,9 +397,37 @@ class Live:
         return range(self.n) if self.scheme == 0 else map(lambda v: v, b)
 
     def edit(self, e):
-        apply_edit(self.adj, e)
-        for i, a in enumerate(self.adj):  # in place: same dict, same list objects, same function object
-            self.table[self.L[i]][:] = [self.L[j] for j in a]
+        adj = self.snapshot()
+        apply_edit(adj, e)
+        self._fill(adj, fresh=False)
+
+    def call(self, ctx, fn, *a, **kw):
+        """fn(nodes, neighbors, ...) on the live objects; returns (result, graph as described at call time).
+        If solvOR changed a caller's container that is recorded as a label — the judgement is against the
+        description the call received."""
+        before = self.snapshot()
+        res = ctx.call(fn, self.nodes(), self.neighbors, *a, **kw)
+        if self.snapshot() != before:
+            ctx.label("solvor-mutated-callers-container")
+        return res, before
+
+
+class View:
+    """Oracle quantities of a described graph, recomputed only when the description changed."""
+
+    def __init__(self, n):
+        self.n, self.adj, self.memo = n, None, {}
+
+    def at(self, adj):
+        if adj != self.adj:
+            self.adj, self.memo = adj, {"nb": G.symmetrise(self.n, adj)}
+        return self
+
+    def get(self, name):
+        m = self.memo
+        if name not in m:
+            m[name] = {"cut": G.cut_vertices, "bridges": G.bridges, "cores": G.core_numbers}[name](self.n, m["nb"])
+        return m[name]
 
 
 def judge(step, got, prev, area, bucket, detail):
@@ -312,19 +437,22 @@ def judge(step, got, prev, area, bucket, detail):
     raise Violation(bucket, {"step": step, **detail} if step else detail)
 
 
-def classify_und(desc, ctx):
-    """Labels + the DESIGN non-triviality rule (on the initial graph); returns (nb, cut, bridges)."""
-    n, adj = desc["n"], desc["adj"]
+def classify_und(desc, ctx, live):
+    """Labels + the DESIGN non-triviality rule (on the initial graph as the containers describe it)."""
+    n, adj = desc["n"], live.snapshot()
     nb = G.symmetrise(n, adj)
     cut = G.cut_vertices(n, nb)
     br = G.bridges(n, nb)
     cyc = G.has_cycle(n, nb)
     one_sided = any(u != v and u not in adj[v] for u in range(n) for v in adj[u])
     ncomp = G.n_components(n, nb)
+    ids = [id(live.store[l]) for l in live.L]
     ctx.label(
         desc["family"],
         f"labels-{desc['scheme']}",
-        "nodes-as-" + NODE_KINDS[desc.get("nodes_kind", 0) % len(NODE_KINDS)],
+        "nodes-as-" + live.kind,
+        "neighbours-as-" + live.ckind,
+        len(set(ids)) < len(ids) and "shared-container-object",
         f"edits-{len(desc.get('edits', []))}",
         one_sided and "asymmetric-listing",
         any(u in adj[u] for u in range(n)) and "self-loop",
@@ -340,15 +468,15 @@ def classify_und(desc, ctx):
     ctx.size("n", n)
     ctx.size("edges", len(G.edge_list(n, nb)))
     ctx.nontrivial(bool((cut or br) and cyc))
-    return nb, cut, br
 
 
 # ----------------------------------------------------------------------------- articulation points / bridges
-def _check_ap(ctx, live, cut, step, prev):
+def _check_ap(ctx, live, view, step, prev):
     from solvor.articulation import articulation_points
 
     idx = live.idx
-    res = ctx.call(articulation_points, live.nodes(), live.neighbors)
+    res, adj = live.call(ctx, articulation_points)
+    cut = view.at(adj).get("cut")
     got = res.solution
     if not isinstance(got, (set, frozenset)):
         raise Violation("ap:not-a-set", repr(got)[:200])
@@ -362,11 +490,12 @@ def _check_ap(ctx, live, cut, step, prev):
     return got
 
 
-def _check_bridges(ctx, live, br, step, prev):
+def _check_bridges(ctx, live, view, step, prev):
     from solvor.articulation import bridges
 
     idx = live.idx
-    res = ctx.call(bridges, live.nodes(), live.neighbors)
+    res, adj = live.call(ctx, bridges)
+    br = view.at(adj).get("bridges")
     lst = res.solution
     if not isinstance(lst, list):
         raise Violation("bridges:not-a-list", repr(lst)[:200])
@@ -394,22 +523,23 @@ def run_articulation(desc, ctx):
     called again and judged against the oracle of the edited graph."""
     live = Live(desc)
     n = desc["n"]
-    nb, cut, br = classify_und(desc, ctx)
+    classify_und(desc, ctx, live)
+    view = View(n)
     order = ("ap", "bridges") if desc.get("first", "ap") == "ap" else ("bridges", "ap")
     prev = {"ap": None, "bridges": None}
     edits = desc.get("edits", [])
     for step in range(len(edits) + 1):
         if step:
+            old = view.at(live.snapshot())
+            was = (old.get("cut"), old.get("bridges"))
             live.edit(edits[step - 1])
-            nb = G.symmetrise(n, live.adj)
-            cut2, br2 = G.cut_vertices(n, nb), G.bridges(n, nb)
-            ctx.label((cut2 != cut or br2 != br) and "edit-changes-answer")
-            cut, br = cut2, br2
+            new = view.at(live.snapshot())
+            ctx.label((new.get("cut"), new.get("bridges")) != was and "edit-changes-answer")
         for fn in order:
             if fn == "ap":
-                prev["ap"] = _check_ap(ctx, live, cut, step, prev["ap"])
+                prev["ap"] = _check_ap(ctx, live, view, step, prev["ap"])
             else:
-                prev["bridges"] = _check_bridges(ctx, live, br, step, prev["bridges"])
+                prev["bridges"] = _check_bridges(ctx, live, view, step, prev["bridges"])
 
 
 # ----------------------------------------------------------------------------- k-cores
@@ -418,14 +548,16 @@ def run_kcore(desc, ctx):
 
     live = Live(desc)
     L, idx, n, k = live.L, live.idx, desc["n"], desc["k"]
-    nb, _, _ = classify_und(desc, ctx)
+    classify_und(desc, ctx, live)
+    view = View(n)
     edits = desc.get("edits", [])
     prev_dec = prev_set = prev_want = None
     for step in range(len(edits) + 1):
         if step:
             live.edit(edits[step - 1])
-            nb = G.symmetrise(n, live.adj)
-        want = G.core_numbers(n, nb)
+
+        res, adj = live.call(ctx, kcore_decomposition)
+        want = view.at(adj).get("cores")
         top = max(want, default=0)
         if step == 0:
             ctx.label(f"maxcore-{min(top, 4)}{'+' if top >= 4 else ''}", len(set(want)) >= 3 and "distinct-cores>=3", k > top and "k>maxcore", k == 0 and "k=0")
@@ -433,8 +565,6 @@ def run_kcore(desc, ctx):
             ctx.label(want != prev_want and "edit-changes-answer")
         prev_want = want
         ctx.size("maxcore", top)
-
-        res = ctx.call(kcore_decomposition, live.nodes(), live.neighbors)
         got = res.solution
         if not isinstance(got, dict):
             raise Violation("kcore:decomposition-not-a-dict", repr(got)[:200])
@@ -443,17 +573,18 @@ def run_kcore(desc, ctx):
         dec = [got[L[i]] for i in range(n)]
         bad = {i: [dec[i], want[i]] for i in range(n) if dec[i] != want[i]}
         if bad:
-            judge(step, dec, prev_dec, "kcore", "kcore:core-number-wrong", {"node: [got, want]": bad})
+            judge(step, dec, prev_dec, "kcore", "kcore:core-number-wrong", {"node: [got, want]": bad, "described": adj})
         prev_dec = dec
 
-        res = ctx.call(kcore, live.nodes(), live.neighbors, k)
+        res, adj = live.call(ctx, kcore, k)
+        want = view.at(adj).get("cores")
         s = res.solution
         if not isinstance(s, (set, frozenset)) or any(v not in idx for v in s):
             raise Violation("kcore:kcore-not-a-node-set", repr(s)[:200])
         wset = {i for i in range(n) if want[i] >= k}
         gset = {idx[v] for v in s}
         if gset != wset:
-            judge(step, gset, prev_set, "kcore", "kcore:kcore-set-wrong", {"k": k, "got": sorted(gset), "want": sorted(wset)})
+            judge(step, gset, prev_set, "kcore", "kcore:kcore-set-wrong", {"k": k, "got": sorted(gset), "want": sorted(wset), "described": adj})
         prev_set = gset
 
 
@@ -463,18 +594,18 @@ def run_louvain(desc, ctx):
 
     live = Live(desc)
     L, idx, n = live.L, live.idx, desc["n"]
-    nb, _, _ = classify_und(desc, ctx)
+    classify_und(desc, ctx, live)
+    view = View(n)
     gamma = desc["res"]
     edits = desc.get("edits", [])
     prev = None
     for step in range(len(edits) + 1):
         if step:
+            nb0 = view.at(live.snapshot()).memo["nb"]
             live.edit(edits[step - 1])
-            nb2 = G.symmetrise(n, live.adj)
-            ctx.label(nb2 != nb and "edit-changes-graph")
-            nb = nb2
-        adj = live.adj
-        res = ctx.call(louvain, live.nodes(), live.neighbors, resolution=gamma)
+            ctx.label(view.at(live.snapshot()).memo["nb"] != nb0 and "edit-changes-graph")
+        res, adj = live.call(ctx, louvain, resolution=gamma)
+        nb = view.at(adj).memo["nb"]
         comms = res.solution
         if not isinstance(comms, list) or not all(isinstance(c, (set, frozenset)) for c in comms):
             raise Violation("louvain:not-a-list-of-sets", repr(comms)[:200])
@@ -519,7 +650,7 @@ def run_louvain(desc, ctx):
         else:
             alt = [k for k, v in vals.items() if abs(q - v) <= 1e-9]
             if not alt:
-                judge(step, cur, prev, "louvain", "louvain:modularity-mismatch", {"reported": q, "recomputed": vals, "communities": icomms, "resolution": gamma})
+                judge(step, cur, prev, "louvain", "louvain:modularity-mismatch", {"reported": q, "recomputed": vals, "communities": icomms, "resolution": gamma, "labels": repr([L[i] for c in icomms for i in c])[:200]})
             ctx.label("modularity-alt-reading:" + alt[0])
         prev = cur
 
@@ -534,14 +665,18 @@ def run_pagerank(desc, ctx):
     api = desc["api"]
     live = Live(desc if api != "edges" else {**desc, "scheme": 0})
     L = live.L
-    adj = live.adj
+    adj = live.snapshot()
     dangling = [u for u in range(n) if not adj[u]]
     cyc = G.has_directed_cycle(n, adj)
     edits = desc.get("edits", [])
+    ids = [id(live.store[l]) for l in L]
     ctx.label(
         desc["family"],
         f"api-{api}",
+        f"labels-{live.scheme}",
         api != "edges" and "nodes-as-" + live.kind,
+        api != "edges" and "neighbours-as-" + live.ckind,
+        api != "edges" and len(set(ids)) < len(ids) and "shared-container-object",
         f"edits-{len(edits)}",
         dangling and "dangling",
         n and len(dangling) == n and "all-dangling",
@@ -555,17 +690,17 @@ def run_pagerank(desc, ctx):
     prev = None
     for step in range(len(edits) + 1):
         if step:
-            before = [sorted(a) for a in live.adj]
+            before = [sorted(a) for a in live.snapshot()]
             live.edit(edits[step - 1])
-            ctx.label([sorted(a) for a in live.adj] != before and "edit-changes-graph")
-        adj = live.adj
-        dangling = [u for u in range(n) if not adj[u]]
-        dup = any(len(a) != len(set(a)) for a in adj)
+            ctx.label([sorted(a) for a in live.snapshot()] != before and "edit-changes-graph")
         if api == "edges":
+            adj = live.snapshot()
             edges = [(u, v) for u in desc["order"] for v in adj[u]]
             res = ctx.call(pagerank_edges, n, edges, damping=d, max_iter=max_iter, tol=tol, backend="python")
         else:
-            res = ctx.call(pagerank, live.nodes(), live.neighbors, damping=d, max_iter=max_iter, tol=tol)
+            res, adj = live.call(ctx, pagerank, damping=d, max_iter=max_iter, tol=tol)
+        dangling = [u for u in range(n) if not adj[u]]
+        dup = any(len(a) != len(set(a)) for a in adj)
 
         p = res.solution
         if not isinstance(p, dict) or set(p) != set(L):
@@ -611,8 +746,8 @@ def run_pagerank(desc, ctx):
 
 
 SUBS = [
-    Sub("articulation_bridges", run_articulation, strategy=lambda tier: und_graphs(tier, 0), quick=2400, thorough=6000, workers_quick=8),
-    Sub("kcore", run_kcore, strategy=lambda tier: und_graphs(tier, 1), quick=2000, thorough=6000, workers_quick=8),
-    Sub("pagerank", run_pagerank, strategy=lambda tier: digraphs(tier), quick=2000, thorough=5000, workers_quick=8),
-    Sub("louvain", run_louvain, strategy=lambda tier: und_graphs(tier, 2), quick=2000, thorough=6000, workers_quick=8),
+    Sub("articulation_bridges", run_articulation, strategy=lambda tier: und_graphs(tier, 0), quick=1200, thorough=6000, workers_quick=4),
+    Sub("kcore", run_kcore, strategy=lambda tier: und_graphs(tier, 1), quick=1000, thorough=6000, workers_quick=4),
+    Sub("pagerank", run_pagerank, strategy=lambda tier: digraphs(tier), quick=1000, thorough=5000, workers_quick=4),
+    Sub("louvain", run_louvain, strategy=lambda tier: und_graphs(tier, 2), quick=1000, thorough=6000, workers_quick=4),
 ]
